@@ -134,6 +134,23 @@ C18_Step(S, T, v, VLess(_, _), how) ==
     {V("C18", "tie_by_id", how \o (IF S.veh[w].full THEN "earlier_waiter_full" ELSE "earlier_waiter"), w) :
         w \in {w \in DOMAIN S.veh \ {v} : StillWaiting(S, T, w, s, p) /\ S.veh[w].enq = e /\ VLess(w, v)}}
 
+
+\* ... and over a whole time step, however many actions it took (an instruction that takes the vehicle out of the queue, an
+\* update that plugs it in): Q is the queue at the BEGINNING of the step (vehicle -> [s, p, enq]), T the state at its end.
+\* A vehicle that was waiting at the beginning and is charging on that plug at the end has not passed a vehicle that was
+\* waiting before it and is still waiting, never having left the queue.
+C18_Boundary(Q, T, VLess(_, _)) ==
+  LET granted == {v \in DOMAIN Q \cap DOMAIN T.veh :
+                    /\ T.veh[v].plug = Q[v].p
+                    /\ \/ (T.veh[v].act = "ChargingStation" /\ T.veh[v].tgt = Q[v].s)
+                       \/ (T.veh[v].act = "ChargingBase" /\ BaseStation(T, T.veh[v].tgt) = Q[v].s)}
+      still(w, v) == /\ w \in DOMAIN T.veh /\ w # v /\ Q[w].s = Q[v].s /\ Q[w].p = Q[v].p
+                     /\ T.veh[w].act = "ChargeQueueing" /\ T.veh[w].tgt = Q[w].s /\ T.veh[w].plug = Q[w].p /\ T.veh[w].enq = Q[w].enq
+  IN UNION {
+       {V("C18", "fifo", "over_the_step/earlier_waiter", w) : w \in {w \in DOMAIN Q : still(w, v) /\ Q[w].enq < Q[v].enq}}
+       \cup {V("C18", "tie_by_id", "over_the_step/earlier_waiter", w) : w \in {w \in DOMAIN Q : still(w, v) /\ Q[w].enq = Q[v].enq /\ VLess(w, v)}}
+       : v \in granted}
+
 -----------------------------------------------------------------------------
 (* C03 (state/step parts that need no history) *)
 \* no instruction can divert a vehicle that is carrying passengers
